@@ -62,8 +62,8 @@ CLAIMED = {
    note="NOT decided in this revision: the equivalence of the answer with the capture-sequence minimax and monotonicity in the threshold (the designed bounded unrolling against a minimax specification was not built). The two seeded C18 mutations (x-ray mask, late e.p. occupancy) are therefore not detected.",
    ref="DESIGN.md section 5 C18"),
  "C20": dict(
-   text="Proof of the arithmetic core for all inputs: the Feistel network maps [0, 2^bits) into itself and is injective on it for every width 1..64 and any round function (two-copy lemma over the real body with the round function uninterpreted), shuffleIndex returns a value below n (0 for n <= 1) by cycle walking; the iterator bodies of Batches and Chunks hand consecutive, non-empty, in-range ranges to yield whose cursors advance by exactly one step (callback contract), i.e. they tile the index range resp. the batch; the line manifest built by NewChunker records, for every line returned by the reader, exactly its physical extent in the file, blank lines included (ghost file position, assumed contract of bufio.Reader.ReadSlice). The last obligation found defect F5, repaired by a fix: commit.",
-   note="Assumed (documented library behaviour): bufio.Reader.ReadSlice, os.Open, os.File.ReadAt, slices.SortFunc. Not under contract in this revision: Chunker.Open (that the i-th collected address is manifest[shuffleIndex(start+i)]), Chunk.Read's slicing, and the composition of 'result is the first iterate below n' with the Lean cycle-walking lemma (spec/lean/Walk.lean) into the permutation statement.",
+   text="Proof of the arithmetic core for all inputs: the Feistel network maps [0, 2^bits) into itself and is injective on it for every width 1..64 and any round function (two-copy lemma over the real body with the round function uninterpreted), shuffleIndex returns a value below n (0 for n <= 1) by cycle walking; the iterator bodies of Batches and Chunks hand consecutive, non-empty, in-range ranges to yield whose cursors advance by exactly one step (callback contract), i.e. they tile the index range resp. the batch; the line manifest built by NewChunker records, for every line returned by the reader, exactly its physical extent in the file, blank lines included (ghost file position, assumed contract of bufio.Reader.ReadSlice). The last obligation found defect F5, repaired by a fix: commit. Chunker.Open is proved to collect, for the window [start, end) of an epoch, exactly manifest[si(start)], manifest[si(start+1)], ... where si names the value of shuffleIndex (loop invariant with a ghost index, index safety from the proved range), and Chunk.Read is proved to return exactly the bytes of the current manifest line of a ghost file (without the newline), to refill its buffer window when the line is not wholly inside it, to keep the window invariant and to advance by one line (assumed contract of os.File.ReadAt).",
+   note="Assumed (documented library behaviour): bufio.Reader.ReadSlice, os.Open, os.File.ReadAt, slices.SortFunc. I/O errors other than end of file are not modelled; after a failed ReadAt the window invariant is not promised (the buffer was overwritten, mapStart/mapEnd still describe the old window - a caller must stop on error, as the tuner does). slices.SortFunc is assumed to permute. Not mechanised: the composition of 'result is the first iterate below n' with the Lean cycle-walking lemma (spec/lean/Walk.lean) into the permutation statement.",
    ref="DESIGN.md section 5 C20"),
  "C14": dict(
    text="Proof for all 2^64 values of every clock field and both colours: timedMode/softLimit/hardLimit are verified against contracts stating the property's clauses (positive, within remaining time, margin kept, move time respected) and a two-copy lemma shows the results depend only on the mover's own clock and the move time. Bit-vector semantics, so int64 overflow of 4*soft is covered.",
